@@ -24,7 +24,7 @@ from checks import bundleparse as BP  # noqa: E402
 PROP = 'C19'
 LEVEL = 'exploration'
 VERSION = 1
-BUDGET = {'quick': 50, 'thorough': 600}
+BUDGET = {'quick': 80, 'thorough': 600}
 CHUNK = {'quick': 10, 'thorough': 20}
 RULE = ('one case = one seeded history (4-40 ops: store, bulk store, overwrite, remove, load, reopen, defrag with seeded '
         'thresholds - also dry, or with one failing open()) on compact v1 or v2, sequential or split over 2-4 concurrently scheduled writers (processes with their own cache objects, or threads sharing one - which may also be switched between two statements of compact.py); about one case in 100 instead works on a bundle extended beyond 4 GiB (sparse file on tmpfs, outside SimFS) (incl. a contention form: 3-4 writers storing into one bundle, retry timers firing while the holder still runs); '
@@ -254,7 +254,7 @@ def gen(t, tier):
         # every second writer process reaches the cache directory under another spelling (through a symbolic link, as a seeding
         # tool started with another configuration would): the same bundles must still be protected by the same locks
         sc['alias'] = not sc['threads'] and bool(t.chance(0.3))
-        sc['clock_jump'] = {'at': t.choice(400), 'by': t.pick([100.0, 600.0, 4000.0])} if t.chance(0.2) else None
+        sc['clock_jump'] = {'at': t.choice(300), 'by': t.pick([100.0, 600.0, 4000.0])} if t.chance(0.3) else None
     return sc
 
 
